@@ -530,7 +530,7 @@ struct WkdRun {
             env.soft(wk_marshal(R, view, JV_OK_WK_SIG, sg.sig, true) == wk_marshal(R, view, JV_OK_WK_SIG, sig2, true), "C14", "sign_precomputed:interchangeable", "sign and sign_precomputed with the same stream differ for " + list_str(L));
             env.count("probe:sign_vs_sign_precomputed_compared");
             // C13 speaks of every signing entry point: what sign_precomputed produced must verify for its own list and message too
-            if (sg.expect_valid) { bool ok2 = verify_both(sg.list, sig2, sg.msg, "signature made by sign_precomputed"); if (!ok2) env.soft(false, "C13", "verify:accepts-valid", "signature made by sign_precomputed by key " + pat_str(pk->pat) + " on list " + list_str(L) + (only_fixed && (ss & 1) ? " (list passed as NULL)" : "") + " does not verify"); }
+            if (sg.expect_valid) { bool ok2 = verify_both(sg.list, sig2, sg.msg, "signature made by sign_precomputed"); if (!ok2) env.soft(false, env.focus == "C14" ? "C14" : "C13", "verify:accepts-valid", "signature made by sign_precomputed by key " + pat_str(pk->pat) + " on list " + list_str(L) + (only_fixed && (ss & 1) ? " (list passed as NULL)" : "") + " does not verify"); }
         }
         bool ok = verify_both(sg.list, sg.sig, sg.msg, "fresh signature");
         if (sg.expect_valid && !ok) env.soft(false, "C13", "verify:accepts-valid", "signature by key " + pat_str(pk->pat) + " on list " + list_str(L) + " does not verify");
@@ -737,7 +737,7 @@ struct WkdScenario : Scenario {
         if (focus == 11) { wts[1] += 6; wts[3] += 3; wts[2] += 2; }
         if (focus == 12) { wts[7] += 6; wts[11] += 6; wts[12] += 5; wts[6] += 4; }
         if (focus == 13) { wts[9] += 8; wts[10] += 8; p.cfg["sig"] = 1; }
-        if (focus == 14) { wts[2] += 8; wts[4] += 4; wts[5] += 8; wts[6] += 2; wts[9] += 2; }
+        if (focus == 14) { wts[2] += 8; wts[4] += 4; wts[5] += 8; wts[6] += 2; wts[9] += 6; wts[10] += 3; p.cfg["sig"] = r.chance(7, 8); }
         if (focus == 15) { wts[13] += 14; wts[6] += 3; wts[9] += 3; }
         int tot = 0; for (int i = 0; i < 14; i++) tot += wts[i];
         p.ops.push_back({"KEYGEN", {(int64_t) (r.next() >> 1), r.chance(1, 6), r.chance(1, 4)}, directives(r, l)});
